@@ -22,6 +22,9 @@ func (c *ctx) modelProfile() {
 	p.BigBody = false
 	p.Paths = 1 + c.n(2)
 	p.Violations = []float64{0, 0.05, 0.15, 0.3}[c.n(4)]
+	p.ExprDepth = 1 + c.n(4)
+	p.Functions = 3 + c.n(8)
+	p.FilesPer = 1 + c.n(3)
 	c.makeWorld(p)
 	for _, ps := range c.sc.World.Paths {
 		if len(ps.Validators) == 0 {
@@ -87,4 +90,15 @@ func genC11(c *ctx) {
 	c.add(&h.Event{K: "check", Check: chk()})
 	c.add(&h.Event{K: "fault", Fault: "paths_order", Arg: int64(c.r.Uint32()), On: true})
 	c.add(&h.Event{K: "check", Check: chk()})
+}
+
+func init() {
+	generators["C10"] = genC10
+	generators["C09"] = genC10
+}
+
+func genC10(c *ctx) {
+	c.modelProfile()
+	c.add(&h.Event{K: "quiesce"})
+	c.add(&h.Event{K: "check", Check: &h.Check{Key: c.key()}})
 }
